@@ -948,6 +948,11 @@ impl<'a> Parser<'a> {
                 }
             }
 
+            // an infix NOT can only start NOT BETWEEN / NOT IN / NOT LIKE (binding power 6):
+            // leave it to the caller when this level binds tighter, instead of dropping it
+            if self.check_keyword(Keyword::Not) && 6 < min_bp {
+                break;
+            }
             let negated = self.consume_keyword(Keyword::Not);
 
             if self.check_keyword(Keyword::Between) {
@@ -1080,7 +1085,9 @@ impl<'a> Parser<'a> {
                         negated: true,
                     })
                 } else {
-                    let expr = self.parse_expr(14)?;
+                    // NOT binds weaker than comparison / IS / IN / BETWEEN / LIKE (6) and
+                    // stronger than AND (4): NOT a = 1 is NOT (a = 1)
+                    let expr = self.parse_expr(5)?;
                     Ok(Expr::UnaryOp {
                         op: UnaryOperator::Not,
                         expr: self.arena.alloc(expr),
